@@ -33,7 +33,7 @@ AUD = ("none", "one-naming", "one-foreign", "two-both-naming", "two-one-foreign"
        "two-naming+blank-audience", "two-blank-audience-first", "three-naming+whitespace-audience+naming", "two-naming+restriction-without-audience",
        "two-naming+near-miss-slash", "two-near-miss-case-first")
 AUD_EXTRA = AUD[8:]
-RECIP = ("own", "foreign", "entityid")
+RECIP = ("own", "foreign", "entityid", "as-destination")      # as-destination: whatever the Destination attribute says (own endpoint when there is none)
 
 
 def gen_cases(tier, seed):
@@ -42,7 +42,7 @@ def gen_cases(tier, seed):
         if tier == "quick":
             # quick: every pair of dimensions still occurs, via a deterministic thinning
             h = hash((irt, scd, dest, aud, rec, unsol, conv, pat, seed)) % 7
-            conforming = irt == "match" and scd == "match" and dest in ("own", "absent") and aud in ("none", "one-naming", "two-both-naming") and rec != "foreign"
+            conforming = irt == "match" and scd == "match" and dest in ("own", "absent") and aud in ("none", "one-naming", "two-both-naming") and rec in ("own", "entityid")
             if h and not conforming and not (aud.startswith("two") or aud == "one-foreign"):
                 continue
             if aud in AUD_EXTRA and h % 3 and (dest != "own" or rec != "own" or irt != "match"):
@@ -163,7 +163,8 @@ def run_case(case, ctx):
                                          "no-irt-then-different": "id-other-request", "no-irt-then-match-then-different": "id-other-request",
                                          "different-then-no-irt": "id-other-request"}[case["scd"]])
     scd = d.find(xk.SAML, "SubjectConfirmationData")[0]
-    d = d.set_attr(scd, "Recipient", {"own": own_acs, "foreign": FOREIGN, "entityid": fed.SP_EID}[case["rec"]])
+    dest_value = d.root.attrs.get("Destination")
+    d = d.set_attr(scd, "Recipient", {"own": own_acs, "foreign": FOREIGN, "entityid": fed.SP_EID, "as-destination": dest_value or own_acs}[case["rec"]])
     if case["scd"] == "nodata-then-different":
         # a first bearer confirmation without any data in front of the one that names another request
         sc = d.find(xk.SAML, "SubjectConfirmation")[0]
@@ -217,10 +218,11 @@ def run_case(case, ctx):
     else:
         r_dest = case["dest"] == "own" and bool(own_for_binding)
     r_aud = case["aud"] in ("none", "one-naming", "two-both-naming", "naming-among-several-audiences")
-    r_rec = (not case["conv"]) or case["rec"] in ("own", "entityid")
+    rec_is_own = case["rec"] in ("own", "entityid") or (case["rec"] == "as-destination" and (case["dest"] == "absent" or (case["dest"] == "own" and bool(own_for_binding))))
+    r_rec = (not case["conv"]) or rec_is_own
     allowed = r_solicit and r_dest and r_aud and r_rec
     conforming = case["irt"] == "match" and case["scd"] == "match" and (case["dest"] == "absent" or (case["dest"] == "own" and own_for_binding)) \
-        and r_aud and case["rec"] in ("own", "entityid") and (bool(own_for_binding) or arrive == "post")
+        and r_aud and rec_is_own and (bool(own_for_binding) or arrive == "post")
     viol = []
     desc = "arrives-over=%s sp-endpoints=%s stored-for-request=%r encrypted=%s " % (arrive, eps, case.get("came", "/came/from"), bool(case.get("enc"))) + "InResponseTo=%s bearer-InResponseTo=%s Destination=%s audience=%s Recipient=%s allow_unsolicited=%s conv_info=%s pattern=%s: %s" % (
         case["irt"], case["scd"], case["dest"], case["aud"], case["rec"], bool(case["unsol"]), bool(case["conv"]), bool(case["pat"]), outcome)
